@@ -33,6 +33,12 @@ def main():
         traceback.print_exc()
         print("INFRA-ERROR %s: unexpected exception in the harness" % a.prop)
         return 2
+    except SystemExit as e:
+        # the code under test called sys.exit (e.g. the dispatcher giving up while starting): the run could not be made;
+        # exit 1 is reserved for VIOLATION lines
+        traceback.print_exc()
+        print("INFRA-ERROR %s: the code under test called sys.exit(%s) outside a simulator step" % (a.prop, e.code))
+        return 2
 
 
 if __name__ == "__main__":
